@@ -2,12 +2,16 @@
    Proved: the generated time_in_range is start-inclusive / end-exclusive with wrap-around and empty when start = end; the
    time of day is periodic (multi-day runs); one driver update at a step starting at time t sets availability to
    time_in_range(shift)(t mod 86400), leaves the rest of the vehicle alone and files a schedule event exactly when
-   availability flips.  PARTIAL: "the dispatcher never assigns to an off-shift driver" is decided by the dispatcher
+   availability flips.  Over whole steps and runs (C20_step_follows_schedule, C20_run_follows_schedule; instruction lists of ANY
+   controller): after the driver updates of a step every human driver's availability is the schedule's verdict at the time the
+   step started, and no other operation of the step (instructions, vehicle updates, admission, cancellation, prices, tick) changes
+   a driver state (C20_only_driver_updates_change_drivers, from the macro frame theorem) — so during every step of every run a
+   human-driven vehicle is available exactly when the step's start time lies in its shift.  PARTIAL: "the dispatcher never assigns to an off-shift driver" is decided by the dispatcher
    engine (harness) on the real Dispatcher. *)
 From Hive.Base Require Import Prelude.
 From Hive.Model Require Import Types KernelBase SimOps States Step.
 From Hive.Gen Require Import Kernels.
-From Hive.Proofs Require Import Shift.
+From Hive.Proofs Require Import Shift VehFrame Macro Clock ShiftInv.
 Local Open Scope Z_scope.
 
 Theorem C20_in_shift_meaning : forall a b x,
@@ -27,5 +31,19 @@ Theorem C20_driver_update : forall env rt s v sch a b s',
              log s' = (if flip then EvSchedule (v_id v) inside (sim_time s) :: log s else log s) /\
              stations s' = stations s /\ bases s' = bases s /\ requests s' = requests s.
 Proof. exact driver_update_spec. Qed.
+Theorem C20_only_driver_updates_change_drivers : forall env s o, (forall rt, o <> OpDrivers rt) -> vkeys s -> op_ok o ->
+  drivers_kept s (step_op env s o) /\ vkeys (step_op env s o).
+Proof. exact other_ops_keep_drivers. Qed.
+Theorem C20_step_follows_schedule : forall env, (forall g, e_fence env g = true) -> forall rt s prices rows is,
+  vkeys s -> scheds_resolve env s -> Forall (fun r => r_disp r = None) rows -> NoDup (map instr_vid is) ->
+  let s' := full_step env rt s prices rows is in
+  shift_ok env s' (sim_time s) /\ vkeys s' /\ scheds_resolve env s' /\ sim_time s' = sim_time s + dt s.
+Proof. exact full_step_shift. Qed.
+Theorem C20_run_follows_schedule : forall env, (forall g, e_fence env g = true) -> forall pre rt prices rows is s,
+  vkeys s -> scheds_resolve env s -> Forall input_ok (pre ++ [(rt, prices, rows, is)]) ->
+  shift_ok env (run env (pre ++ [(rt, prices, rows, is)]) s) (sim_time (run env pre s)).
+Proof. exact run_shift. Qed.
+Print Assumptions C20_only_driver_updates_change_drivers. Print Assumptions C20_step_follows_schedule. Print Assumptions C20_run_follows_schedule.
+
 Print Assumptions C20_in_shift_meaning. Print Assumptions C20_empty_shift.
 Print Assumptions C20_time_of_day. Print Assumptions C20_driver_update.
